@@ -138,3 +138,31 @@ Proof.
   intros H. apply (kpc_feasible_iff (exB 1) [] exRank 3 ex_wf eq_refl ex_rank ex_rank_le (exB_cons_ok 1)) in H.
   exact (ex_no_cover_1 H).
 Qed.
+
+(* ---- given weights (solution_weights_superset): a satisfying assignment of the LP with an empty layer ---- *)
+From FP Require Import PathEncGiven.
+(* three given weights 2, 3, 5 for the diamond with flows 2 / 3: layers 0 and 1 carry the two paths, layer 2 stays empty *)
+Definition exBg : path_inst :=
+  {| p_graph := exG; p_k := 3; p_allow_empty := true; p_cons := []; p_cov := 1%Q; p_len := None |}.
+Definition exIg : kfd_inst :=
+  {| f_base := exBg; f_flow := [((0, 1), 2%Q); ((0, 2), 3%Q); ((1, 3), 2%Q); ((2, 3), 3%Q)]%N; f_ignore := [];
+     f_wmax := 5%Q; f_int := true |}.
+Definition exAg (x : var) : Q :=
+  match vidx x with
+  | [u; v; i] => if (vfam x =? fEdge)%N then
+                   if (i =? 0)%N then indq (mem_edge (u, v) [(0, 1); (1, 3)]%N)
+                   else if (i =? 1)%N then indq (mem_edge (u, v) [(0, 2); (2, 3)]%N) else 0%Q
+                 else 0%Q
+  | _ => 0%Q
+  end.
+
+Example ex_given_sat : sat exAg (encode_kfd_given exIg [2%Q; 3%Q; 5%Q] 2).
+Proof.
+  split.
+  - apply Forall_forall. intros c Hc. cbn in Hc.
+    repeat (destruct Hc as [<-|Hc]; [unfold sat_col; cbn; repeat split; try lra; intros _; try (exists 0%Z; reflexivity); try (exists 1%Z; reflexivity)|]).
+    destruct Hc.
+  - apply Forall_forall. intros r Hr. cbn in Hr.
+    repeat (destruct Hr as [<-|Hr]; [unfold sat_row, mkrow; cbn; unfold inject_Z; lra|]).
+    destruct Hr.
+Qed.
